@@ -96,10 +96,11 @@ fn now_us() -> u64 {
     SystemTime::now().duration_since(UNIX_EPOCH).unwrap().as_micros() as u64
 }
 
-/// Nonce pool: the k-th valid request of a protocol on a socket uses pool[k mod 2], so the first
-/// requests of different sockets are byte-identical and a socket's third request repeats its first.
+/// Nonce pool: the k-th valid request of a protocol on a socket uses pool[(k/2) mod 2], so the first
+/// requests of different sockets are byte-identical, a socket's second request is a byte-identical
+/// retransmission of its first, its third differs, and its fifth repeats its first.
 pub fn pool_request(v: Version, k: usize) -> Vec<u8> {
-    std_request(v, &nonce(0x9000 + (k % 2) as u64, v.nonce_len()))
+    std_request(v, &nonce(0x9000 + ((k / 2) % 2) as u64, v.nonce_len()))
 }
 
 pub fn bad_datagram() -> Vec<u8> {
@@ -417,7 +418,7 @@ pub fn run(ctx: &Ctx) -> Result<(), String> {
     ctx.cov("replies_matched", json!(replies.load(Relaxed)));
     ctx.cov("exhaustive", json!(true));
     ctx.cov("bound", json!({"history_depth": depth, "alphabet": al.iter().map(|e| e.name()).collect::<Vec<_>>(), "batch_sizes_histories":[1,2,3], "differential_suffix_len": ctx.tier.pick(3,4), "burst_batch_sizes": ctx.tier.pick(13, 64)}));
-    ctx.cov("rule", json!(format!("all event sequences of length 1..={} over {{C0,C1,I0,I1 (valid classic/IETF request from socket 0/1), X0 (invalid datagram), step}} for batch_size 1,2,3, each completed to quiescence on a fresh real in-process Server (stateless enumeration; `states` = distinct canonical end states: per-socket reply counts, batch-size multiset, stats totals). Nonce pool forces byte-identical requests from different sockets and repeated requests from one socket. Oracle: per socket, the received datagrams are exactly one authentic reply (rtref::authentic bound to the exact request bytes) per accepted request sent from that socket, nothing for rejected datagrams, replies come from the server's address, framing matches the request's protocol. Differential: every suffix of length {} after 3 prefixes vs on a fresh server. Parametric bursts: batch sizes x k in {{b-1,b,b+1,2b,2b+1}} x 6 patterns.", depth, ctx.tier.pick(3,4))));
+    ctx.cov("rule", json!(format!("all event sequences of length 1..={} over {{C0,C1,I0,I1 (valid classic/IETF request from socket 0/1), X0 (invalid datagram), step}} for batch_size 1,2,3, each completed to quiescence on a fresh real in-process Server (stateless enumeration; `states` = distinct canonical end states: per-socket reply counts, batch-size multiset, stats totals). Nonce pool forces byte-identical requests from different sockets, immediate byte-identical retransmissions on one socket, then a different request, then repeats. Oracle: per socket, the received datagrams are exactly one authentic reply (rtref::authentic bound to the exact request bytes) per accepted request sent from that socket, nothing for rejected datagrams, replies come from the server's address, framing matches the request's protocol. Differential: every suffix of length {} after 3 prefixes vs on a fresh server. Parametric bursts: batch sizes x k in {{b-1,b,b+1,2b,2b+1}} x 6 patterns.", depth, ctx.tier.pick(3,4))));
     ctx.sample(json!({"batch_size":2,"events":["C0","C1","I0","step","X0","I1"]}));
     ctx.sample(json!({"kind":"burst","batch_size":64,"k":129,"pattern":"CIX"}));
     ctx.assume("loopback UDP delivery is synchronous with send_to (self-tested)");
